@@ -126,3 +126,8 @@ Print Assumptions C09_cancel_bounded.
 Print Assumptions C09_size_guard_sound.
 Print Assumptions C09_repeat_guard_sound.
 Print Assumptions C09_size_guard_refuted_pinned.
+Print Assumptions C09_cancel_bounded_stop.
+Print Assumptions C09_string_repeat_guard_sound.
+Print Assumptions C09_range_guard_sound.
+Print Assumptions C09_concat_guard_sound.
+Print Assumptions C09_string_concat_guard_sound.
